@@ -134,7 +134,8 @@ def ser_reaction(r, mp, segs_override=None, mode="P"):
         reach = d.get("reachable", True)
         tls_ok = d.get("model_tls_ok", d.get("tls_ok", True))
         segs = segs_override if segs_override is not None else d.get("segs", [])
-        end = "E" if (d.get("end", "E") == "E" or not d.get("tls")) else "X"     # a bare close is the end of file without TLS
+        # without TLS a bare close is the end of file; a reset is an error on any connection
+        end = "E" if (d.get("end", "E") == "E" or (d.get("end") == "X" and not d.get("tls"))) else "X"
         shut = d.get("shutdown_ok", True)
     else:
         reach, tls_ok, segs, end, shut = False, False, [], "X", False
